@@ -166,6 +166,9 @@ static struct {
     int next;
     long ext_frees_of_user_stack_ults;
     ABT_key key; /* some units store a value: their key table is one more pooled block */
+    int reuse_attr;
+    ABT_thread_attr cattr[4];
+    long attr_reuses;
 } Q;
 
 static void touch_down(su *u, volatile char *sp, int depth)
@@ -244,7 +247,26 @@ static void stack_fn(void *arg)
 static void create_su(su *u)
 {
     ABT_thread_attr attr = ABT_THREAD_ATTR_NULL;
-    if (u->kind == 1) {
+    int reuse = Q.reuse_attr && u->kind != 0;
+    if (reuse) {
+        /* one attribute object per creator, set anew for every ULT it creates: what an earlier
+         * ULT was given (a user stack in particular) must not leak into the next one */
+        attr = Q.cattr[u->creator];
+        if (attr == ABT_THREAD_ATTR_NULL) {
+            ABT_OK(ABT_thread_attr_create(&attr));
+            Q.cattr[u->creator] = attr;
+        }
+        if (u->kind == 2)
+            ABT_OK(ABT_thread_attr_set_stack(attr, u->ustack, u->size));
+        else /* "allocate a stack of this size for me" (ABT_thread_attr_set_stacksize would keep a user stack set before, as documented) */
+            ABT_OK(ABT_thread_attr_set_stack(attr, NULL, u->size));
+        void *ga = (void *)1;
+        size_t gs = 0;
+        ABT_OK(ABT_thread_attr_get_stack(attr, &ga, &gs));
+        SIM_CHECK(ga == (u->kind == 2 ? (void *)u->ustack : NULL) && gs == u->size, "stack:attribute", "ULT %d: the attribute was set to (%p, %zu) and reads back (%p, %zu)", u->id,
+                  u->kind == 2 ? (void *)u->ustack : NULL, u->size, ga, gs);
+        Q.attr_reuses++;
+    } else if (u->kind == 1) {
         ABT_OK(ABT_thread_attr_create(&attr));
         ABT_OK(ABT_thread_attr_set_stacksize(attr, u->size));
     } else if (u->kind == 2) {
@@ -252,7 +274,7 @@ static void create_su(su *u)
         ABT_OK(ABT_thread_attr_set_stack(attr, u->ustack, u->size));
     }
     ABT_OK(ABT_thread_create(Q.rt.pools[u->pool], stack_fn, u, attr, &u->th));
-    if (attr != ABT_THREAD_ATTR_NULL)
+    if (attr != ABT_THREAD_ATTR_NULL && !reuse)
         ABT_OK(ABT_thread_attr_free(&attr));
     size_t got = 0;
     ABT_OK(ABT_thread_get_stacksize(u->th, &got));
@@ -298,6 +320,9 @@ static void run_c15_stacks(void)
     int rounds = plan_range(1, 4);
     int fav_kind = (int)plan_n(4) - 1, fav_freer = (int)plan_n(4) - 1;
     int next = (int)plan_n(3);
+    Q.reuse_attr = plan_n(3) == 0;
+    for (int k = 0; k < 4; k++)
+        Q.cattr[k] = ABT_THREAD_ATTR_NULL;
     for (int round = 0; round < rounds; round++) {
         memset(Q.U, 0, sizeof Q.U);
         Q.ext_done[0] = Q.ext_done[1] = 0;
@@ -353,7 +378,11 @@ static void run_c15_stacks(void)
             SIM_CHECK(Q.U[i].freed && Q.U[i].done, "once:not-exactly-once", "ULT %d: done=%d freed=%d", i, Q.U[i].done, Q.U[i].freed);
     }
     ABT_OK(ABT_key_free(&Q.key));
+    for (int k = 0; k < 4; k++)
+        if (Q.cattr[k] != ABT_THREAD_ATTR_NULL)
+            ABT_OK(ABT_thread_attr_free(&Q.cattr[k]));
     sim_count("c15.ext_frees_of_user_stack_ults", (uint64_t)Q.ext_frees_of_user_stack_ults);
+    sim_count("c15.attribute_objects_reused", (uint64_t)Q.attr_reuses);
     wl_rt_stop(rt);
 }
 SIM_WORKLOAD("C15", "stacks", run_c15_stacks, 10)
